@@ -161,4 +161,47 @@ def rule_blank_lines_skip(ctx):
     r.floor(3)
 
 
-RULES = [rule_first_dispatch, rule_ignored_whole_line, rule_no_strip, rule_raw_emit, rule_effects, rule_blank_lines_skip]
+def rule_newline_guards(ctx):
+    """The generic newline editors are handed (before, after) pairs by ~40 option handlers; when `after` is a line of a
+    disabled region, removing or adding the line break in front of it glues or splits region lines.  Both entry points
+    refuse the edit when their second chunk is CT_IGNORED - sibling agreement on which argument is tested."""
+    db = ctx.db
+    r = ctx.rule("newline-guards", "newline_iarf_pair(before, after, ..) and newline_add_between(start, end) return before any edit when "
+                 "their second chunk parameter is CT_IGNORED (the test dominates every call of newline_add_between/newline_del_between and "
+                 "every chunk creation in them)")
+    for qn, file in (("newline_iarf_pair", "src/newlines/iarf.cpp"), ("newline_add_between", "src/newlines/add.cpp")):
+        f = db.fn(qn, file=file)
+        ps = [p["n"] for p in f.d.get("params", ()) if p["t"].replace("const ", "").strip() in ("Chunk *", "class Chunk *")]
+        r.require(len(ps) >= 2, "%s no longer takes two chunks" % qn)
+        second = ps[1]
+        want = "%s->Is(CT_IGNORED)" % second
+        # edits: calls that add/delete newlines or create chunks
+        edits = [n for n in f.all_nodes() if n["k"] == "call" and (n.get("c") in ("newline_add_between", "newline_del_between", "newline_add_before", "newline_add_after",
+                                                                                    "Chunk::CopyAndAddBefore", "Chunk::CopyAndAddAfter", "Chunk::Delete")
+                                                                    or (n.get("c") or "").endswith("::SetNlCount"))]
+        r.require(edits, "%s contains no newline edit" % qn)
+        for n in edits:
+            r.seen()
+            leaves = set()
+            for cn, pol in f.guard_conds(f.nblock[n["i"]]):
+                if cn is None or pol is not False:
+                    continue
+                # a false `a || b || c` makes every disjunct false
+                stack = [cn]
+                while stack:
+                    x = f.nodes.get(stack.pop())
+                    if x is None:
+                        continue
+                    if x["k"] == "bin" and x.get("op") == "||":
+                        stack.extend(x["a"])
+                    elif x["k"] == "cast":
+                        stack.append(x["a"][0])
+                    else:
+                        leaves.add(expr_str(f, x["i"]))
+            r.check(want in leaves, "%s/%s-not-ignored/%s" % (qn, second, (n.get("c") or "?").split("::")[-1]), db.loc(f, n),
+                    "%s() edits a line break without having excluded that `%s` (the chunk after the break) is a line of a disabled region; "
+                    "excluded here: %s" % (qn, second, sorted(x for x in leaves if "IGNORED" in x) or "nothing about CT_IGNORED"))
+    r.floor(3)
+
+
+RULES = [rule_first_dispatch, rule_ignored_whole_line, rule_no_strip, rule_raw_emit, rule_effects, rule_blank_lines_skip, rule_newline_guards]
